@@ -11,14 +11,24 @@ static _Atomic int ring_abort;  // set when a thread saw an absurd streak of fai
 #define STUCK_STREAK 30000000L
 static _Atomic long ring_successes;  // any thread, any operation
 // a failure only counts towards the streak while nobody at all succeeds
+// (and, because a thread that owes the others a step can be descheduled for a long time on an oversubscribed machine, only after the
+// process has also gone 20 s without a single success: an aborted round is merely inconclusive, so the clock costs no soundness here)
+static _Atomic uint64_t ring_last_success_ns;
 static inline int stuck_tick(long* streak, long* seen) {
   const long g = atomic_load_explicit(&ring_successes, memory_order_relaxed);
   if (g != *seen) {
     *seen = g;
     *streak = 0;
+    atomic_store_explicit(&ring_last_success_ns, vp_now_ns(), memory_order_relaxed);
     return 0;
   }
-  return ++*streak > STUCK_STREAK;
+  if (++*streak <= STUCK_STREAK) return 0;
+  const uint64_t last = atomic_load_explicit(&ring_last_success_ns, memory_order_relaxed);
+  if (last && vp_now_ns() - last < 20000000000ULL) {
+    *streak = STUCK_STREAK - 1000000;  // look at the clock again after another million failures
+    return 0;
+  }
+  return 1;
 }
 static vp_counter_t *c_push, *c_pushfail, *c_pop, *c_popfail, *c_rounds, *c_laps;
 
@@ -136,6 +146,7 @@ void ds_sub_ring(void) {
     atomic_store(&popped_total, 0);
     atomic_store(&pushers_done, 0);
     atomic_store(&ring_abort, 0);
+    atomic_store(&ring_last_success_ns, vp_now_ns());
     rb = lockfree_ring_buffer_create((uint32_t)cap_log);
     if (vp_rand(&rng) & 1) {
       // start the counters just below 2^32 (a multiple of the capacity below it): crossing that boundary must be a
